@@ -122,8 +122,8 @@ def referencedBy (s : Store) (keep : List Nat) (h : Str) : Prop :=
   ∃ b ∈ keep, ∃ n es, hunkAt s b n = some es ∧ ∃ e ∈ es, ∃ a ∈ e.addrs, a.hash = h
 
 theorem mem_bandRefs {s : Store} {b : Nat} {h : Str} (hd : HunkDirsOk s b) :
-    h ∈ bandRefs s b ↔ ∃ n es, hunkAt s b n = some es ∧ ∃ e ∈ es, ∃ a ∈ e.addrs, a.hash = h := by
-  simp only [bandRefs, hunkEntriesOf, List.mem_flatMap, List.mem_map]
+    h ∈ bandRefHashes s b ↔ ∃ n es, hunkAt s b n = some es ∧ ∃ e ∈ es, ∃ a ∈ e.addrs, a.hash = h := by
+  simp only [bandRefHashes, hunkEntriesOf, List.mem_flatMap, List.mem_map]
   constructor
   · rintro ⟨e, ⟨n, _, he⟩, a, ha, rfl⟩
     cases hes : hunkAt s b n with
